@@ -83,6 +83,7 @@ type walkArg struct {
 	Htlc      bool
 	Enforced  bool
 	Stalls    bool
+	LongStall bool // half way through, no momentum for eleven epochs: more pending epochs than one update may pay
 	Tight     bool // ZNN and QSR maximum supplies just above the genesis supplies: reward mints run into the cap
 }
 
@@ -93,7 +94,7 @@ func init() {
 			return nil, err
 		}
 		node.Quiet()
-		return labWalk(a.Seed, a.Momentums, a.Htlc, a.Enforced, a.Stalls, a.Tight)
+		return labWalk(a.Seed, a.Momentums, a.Htlc, a.Enforced, a.Stalls, a.Tight, a.LongStall)
 	})
 }
 
@@ -134,7 +135,8 @@ func labWalks(run *core.Run, args []walkArg) []*walkResult {
 }
 
 // labWalk runs one seeded walk on a fresh producer and returns its projected trace.
-func labWalk(seed int64, momentums int, htlc bool, enforced bool, stalls bool, tight bool) (*walkResult, error) {
+func labWalk(seed int64, momentums int, htlc bool, enforced bool, stalls bool, tight bool, longStall bool) (*walkResult, error) {
+	ledger.LegacyLiquidity = !htlc
 	walk.LabConstants()
 	if enforced {
 		verifier.ReceiverMismatchEnforcementHeight = 1
@@ -171,6 +173,15 @@ func labWalk(seed int64, momentums int, htlc bool, enforced bool, stalls bool, t
 			w.HtlcOn = true
 		}
 	}
+	if longStall {
+		if err := w.Run(momentums / 2); err != nil {
+			return nil, fmt.Errorf("walk seed %d: %v (problems %v)", seed, err, p.Problems)
+		}
+		if err := p.Produce(11*walk.EpochMomentums + 20); err != nil {
+			return nil, fmt.Errorf("walk seed %d (long stall): %v", seed, err)
+		}
+		momentums -= momentums / 2
+	}
 	if err := w.Run(momentums); err != nil {
 		return nil, fmt.Errorf("walk seed %d: %v (problems %v)", seed, err, p.Problems)
 	}
@@ -187,7 +198,7 @@ func labWalk(seed int64, momentums int, htlc bool, enforced bool, stalls bool, t
 	if err := cap.Project(ids[0], pr); err != nil {
 		return nil, err
 	}
-	name := fmt.Sprintf("lab walk seed=%d momentums=%d htlc=%v enforced=%v stalls=%v tight-supply=%v", seed, momentums, htlc, enforced, stalls, tight)
+	name := fmt.Sprintf("lab walk seed=%d momentums=%d htlc=%v enforced=%v stalls=%v tight-supply=%v long-stall=%v", seed, momentums, htlc, enforced, stalls, tight, longStall)
 	return &walkResult{Run: ledgerRun{Name: name, Events: pr.Events, Note: pr.Note}, Drained: drained, Problems: p.Problems, Methods: w.Methods,
 		Stats: fmt.Sprintf("%s: %d blocks submitted, %d refused at send time, %d accepted, %d momentums, %d stalls", name, w.Submitted, w.RejectedAtSend, pr.Blocks, pr.Momentums, w.StallCount)}, nil
 }
@@ -200,6 +211,7 @@ type ledgerFamilyOpts struct {
 	walks       int
 	walkLen     int
 	tight       bool // one more walk with tight ZNN / QSR maximum supplies
+	longStall   bool // one more walk (no sporks) with an eleven-epoch silence in the middle
 	reorgs      int // reorganisation scenarios (reorg.go)
 	dust        bool // dust-backers scenarios (dust.go)
 	cells       int // batches of CallCells.tla cells (cells.go)
@@ -251,6 +263,9 @@ func ledgerFamily(run *core.Run, o ledgerFamilyOpts) {
 	}
 	if o.tight {
 		wargs = append(wargs, walkArg{Seed: run.Seed*1000 + 500, Momentums: wl, Htlc: false, Enforced: true, Tight: true})
+	}
+	if o.longStall {
+		wargs = append(wargs, walkArg{Seed: run.Seed*1000 + 600, Momentums: wl / 2, Htlc: false, Enforced: true, LongStall: true})
 	}
 	for _, wr := range labWalks(run, wargs) {
 		runs = append(runs, wr.Run)
